@@ -107,7 +107,7 @@ Definition expected_poll : list (string * string) :=
     ("PollExecutor._register_poll", "47d30ef6a43d1475bb7f");
     ("PollExecutor._deregister_poll", "35487aedc8e8b1059049");
     ("PollExecutor._run_cancel_fn", "1fce5b299c06a07d3ead");
-    ("PollExecutor._run_poll_fn", "c9c066d2e2e816ae239c");
+    ("PollExecutor._run_poll_fn", "1ac54d2eea8ef45692f4");
     ("PollExecutor.shutdown", "308756632f3d60964864");
     ("<class PollExecutor>", "80f984318759eb8c373f");
     ("_poll_loop", "87a8ab909a0e9830a302");
